@@ -245,8 +245,10 @@ func setModelStep(state, input, output interface{}) (bool, interface{}) {
 		}
 		return true, n
 	case "healthy", "unhealthy":
+		// the call reports whether it was the one that flipped the flag; a call that found the flag already in
+		// that state (an earlier or a still running call flipped it) changes nothing by itself
 		n := m.clone()
-		if h, ok := n[in.addr]; ok && h.id == in.id {
+		if h, ok := n[in.addr]; ok && h.id == in.id && out.ok {
 			h.healthy = in.op == "healthy"
 			n[in.addr] = h
 		}
@@ -376,12 +378,13 @@ func (p c15) runSet(t *testing.T, sc *C15Scenario) harness.Outcome {
 							continue
 						}
 						call2 := w.rt.Step
+						var flipped bool
 						if op.Op == "healthy" {
-							set.MarkHostHealthy(obj)
+							flipped = set.MarkHostHealthy(obj)
 						} else {
-							set.MarkHostUnhealthy(obj)
+							flipped = set.MarkHostUnhealthy(obj)
 						}
-						record(ti, setIn{op: op.Op, addr: a, id: id}, call2, setOut{})
+						record(ti, setIn{op: op.Op, addr: a, id: id}, call2, setOut{ok: flipped})
 					case "r-healthy":
 						var l []string
 						for _, h := range set.Healthy() {
